@@ -11,7 +11,13 @@
 //! all_subtypes_of, inheritance, choices_for, conjuncts_defs and fits against every symbol of the universe;
 //! for every record reflect().defs, Reflection::fits(base) and the filter `^base`.  Each answer goes
 //! (a) to the Lean model as a correspondence request (`C13 sym ..`, `C13 refl ..`; sorted name lists) and
-//! (b) against an independent closure oracle (plain DFS over the `is` lists) written here.
+//! (b) against an independent closure oracle (plain DFS with a visited set over the `is` lists) written here;
+//!     on small grids the DFS is itself cross-checked against a Floyd-Warshall closure.
+//!
+//! The grids are ARBITRARY graphs: since /repo da32af2 the traversals expand a def once, so `is` lists that
+//! form cycles (self loops, 2-cycles, rings, cycles with tails, cycles through diamonds and conjuncts) are in
+//! scope like everything else.  A regression to a traversal without a visited check never returns on them: the
+//! per-case watchdog reports it as kind `hang` with the case's input (the defs grid) as the replay.
 
 use crate::ctx::{CaseOut, Ctx};
 use crate::rng::Rng;
@@ -357,7 +363,39 @@ impl Oracle {
         }
         out
     }
-    /// loop iterations of all_supertypes_of / all_subtypes_of (number of stacked vectors), saturating
+    /// the defs that lie on a cycle of `is` edges (they are their own transitive supertype)
+    pub fn on_cycle(&self) -> Vec<String> {
+        self.is.keys().filter(|k| self.all_sup(k).contains(*k)).cloned().collect()
+    }
+    /// a second, differently built closure (Floyd-Warshall over the defined `is` edges) for cross-checking the
+    /// DFS on small graphs: name -> strict ancestors
+    pub fn warshall(&self) -> BTreeMap<String, BTreeSet<String>> {
+        let names: Vec<&String> = self.is.keys().collect();
+        let n = names.len();
+        let idx: BTreeMap<&String, usize> = names.iter().enumerate().map(|(i, k)| (*k, i)).collect();
+        let mut m = vec![vec![false; n]; n];
+        for (a, items) in &self.is {
+            for b in items {
+                if let Some(&j) = idx.get(b) {
+                    m[idx[a]][j] = true;
+                }
+            }
+        }
+        for k in 0..n {
+            for i in 0..n {
+                if m[i][k] {
+                    for j in 0..n {
+                        if m[k][j] {
+                            m[i][j] = true;
+                        }
+                    }
+                }
+            }
+        }
+        (0..n).map(|i| (names[i].clone(), (0..n).filter(|&j| m[i][j]).map(|j| names[j].clone()).collect())).collect()
+    }
+    /// loop iterations of a traversal WITHOUT a visited check (number of paths), saturating.  Only meaningful
+    /// on an acyclic graph (it recurses along the edges): `gen_graph` calls it before any back edge is added.
     pub fn cost(&self, cap: u64) -> u64 {
         // paths counted by memoised DFS (the graph is acyclic by construction)
         fn up(o: &Oracle, s: &str, memo: &mut BTreeMap<String, u64>, cap: u64) -> u64 {
@@ -616,12 +654,13 @@ pub struct GenGraph {
     pub defined: Vec<String>,
 }
 
-/// random ACYCLIC taxonomy: defs are created in rank order and only list lower ranks (or never-defined
+/// random ACYCLIC taxonomy (`gen_cyclic_graph` adds back edges to one): defs are created in rank order and only list lower ranks (or never-defined
 /// names), so every row - duplicates included - respects one topological numbering.
 pub fn gen_graph(rng: &mut Rng, max_defs: u64) -> GenGraph {
     loop {
         let g = gen_graph_once(rng, max_defs);
-        // the traversals re-expand a def once per path: keep the path count moderate
+        // keep the path count moderate (a traversal that re-expanded a def once per path would take that long;
+        // the repaired one does not, see the `cyc:ladder40` case - the bound is kept for C14's schedules)
         if Oracle::new(&g.rows).cost(1 << 40) < 150_000 {
             return g;
         }
@@ -728,6 +767,60 @@ fn gen_graph_once(rng: &mut Rng, max_defs: u64) -> GenGraph {
     GenGraph { rows, defined }
 }
 
+/// random graph WITH back edges: an acyclic taxonomy of `gen_graph_once` plus extra `is` items that point
+/// anywhere (upwards, sideways, at the def itself).  `mode`: 0 a few random extra edges, 1 self loops,
+/// 2 a root lists the youngest def (one big cycle through the longest chains), 3 an extra random item in
+/// (nearly) every list (dense: many overlapping cycles and diamonds).  Most results are cyclic; whether a
+/// given one is cyclic is counted in `exec` (`cyclic_graph`).
+pub fn gen_cyclic_graph(rng: &mut Rng, max_defs: u64, mode: u64) -> GenGraph {
+    let mut g = gen_graph_once(rng, max_defs);
+    if g.defined.is_empty() {
+        return g;
+    }
+    let add = |g: &mut GenGraph, from: &str, to: &str| {
+        // every row of that def symbol (the last one wins in `make`) gets the item
+        for r in g.rows.iter_mut() {
+            if matches!(&r.def, DefTag::Sym(n) if n == from) {
+                match &mut r.is {
+                    IsTag::List(l) => l.push(Some(to.to_string())),
+                    IsTag::Absent => r.is = IsTag::List(vec![Some(to.to_string())]),
+                    IsTag::Single(_) => {}
+                }
+            }
+        }
+    };
+    let n = g.defined.len() as u64;
+    match mode {
+        0 => {
+            for _ in 0..1 + rng.below(4) {
+                let a = g.defined[rng.below(n) as usize].clone();
+                let b = g.defined[rng.below(n) as usize].clone();
+                add(&mut g, &a, &b);
+            }
+        }
+        1 => {
+            for _ in 0..1 + rng.below(3) {
+                let a = g.defined[rng.below(n) as usize].clone();
+                add(&mut g, &a, &a);
+            }
+        }
+        2 => {
+            let first = g.defined[rng.below(n.min(3)) as usize].clone();
+            let last = g.defined[(n - 1 - rng.below(n.min(3))) as usize].clone();
+            add(&mut g, &first, &last);
+        }
+        _ => {
+            for a in g.defined.clone() {
+                if rng.chance(4, 5) {
+                    let b = g.defined[rng.below(n) as usize].clone();
+                    add(&mut g, &a, &b);
+                }
+            }
+        }
+    }
+    g
+}
+
 /// records over defined and undefined tag names; half of them aim at a conjunct
 pub fn gen_records(rng: &mut Rng, o: &Oracle, n: u64) -> Vec<RecSpec> {
     let defined: Vec<String> = o.is.keys().cloned().collect();
@@ -827,6 +920,95 @@ pub fn generate(ctx: &mut Ctx) {
         t.push("b".into());
         write_names(&names, &mut t);
         ctx.case("scope:conjunct_undefined_part", &t.join(" "));
+    }
+    // ---- cyclic `is` graphs (in scope since the traversals expand a def once) -------------------
+    let sy = |s: &str| Some(s.to_string());
+    let cyclic: Vec<(&str, Vec<RowSpec>)> = vec![
+        ("self", vec![RowSpec::plain("a", vec![sy("a")])]),
+        ("self_exit", vec![RowSpec::plain("a", vec![sy("a"), sy("m"), sy("a")]), RowSpec::plain("m", vec![])]),
+        ("two", vec![RowSpec::plain("aa", vec![sy("bb")]), RowSpec::plain("bb", vec![sy("aa")])]),
+        ("three", vec![RowSpec::plain("a", vec![sy("b")]), RowSpec::plain("b", vec![sy("c")]), RowSpec::plain("c", vec![sy("a")])]),
+        ("ring12", (0..12).map(|i| RowSpec::plain(&format!("c{i}"), vec![Some(format!("c{}", (i + 1) % 12))])).collect()),
+        // a tail of two defs into a 2-cycle with an exit and an undefined supertype
+        (
+            "tail",
+            vec![
+                RowSpec::plain("t2", vec![sy("t1")]),
+                RowSpec::plain("t1", vec![sy("a")]),
+                RowSpec::plain("a", vec![sy("b")]),
+                RowSpec::plain("b", vec![sy("a"), sy("m"), sy("zz")]),
+                RowSpec::plain("m", vec![]),
+            ],
+        ),
+        // the theorem file's example: tail t, diamond a -> b|c -> d closing the cycle d -> a, exit m, undefined zz,
+        // self loop s, conjunct b-c leading into the tail
+        (
+            "tail_diamond",
+            vec![
+                RowSpec::plain("t", vec![sy("a")]),
+                RowSpec::plain("a", vec![sy("b"), sy("c")]),
+                RowSpec::plain("b", vec![sy("d")]),
+                RowSpec::plain("c", vec![sy("d"), None]),
+                RowSpec::plain("d", vec![sy("a"), sy("m"), sy("zz")]),
+                RowSpec::plain("m", vec![]),
+                RowSpec::plain("s", vec![sy("s"), sy("m")]),
+                RowSpec::plain("b-c", vec![sy("t")]),
+            ],
+        ),
+        // a cycle x <-> y between the waist and the foot of a diamond
+        (
+            "cycle_in_diamond",
+            vec![
+                RowSpec::plain("top", vec![sy("l"), sy("r")]),
+                RowSpec::plain("l", vec![sy("x")]),
+                RowSpec::plain("r", vec![sy("x")]),
+                RowSpec::plain("x", vec![sy("y")]),
+                RowSpec::plain("y", vec![sy("x"), sy("bot")]),
+                RowSpec::plain("bot", vec![]),
+            ],
+        ),
+        ("eight", vec![RowSpec::plain("a", vec![sy("b")]), RowSpec::plain("b", vec![sy("a"), sy("c")]), RowSpec::plain("c", vec![sy("b")])]),
+        // two separate cycles hanging under one undefined symbol
+        (
+            "two_cycles",
+            vec![
+                RowSpec::plain("a", vec![sy("b"), sy("zz")]),
+                RowSpec::plain("b", vec![sy("a")]),
+                RowSpec::plain("c", vec![sy("d")]),
+                RowSpec::plain("d", vec![sy("c"), sy("zz")]),
+            ],
+        ),
+        // every def lists every def (itself included)
+        ("complete6", (0..6).map(|i| RowSpec::plain(&format!("k{i}"), (0..6).map(|j| Some(format!("k{j}"))).collect())).collect()),
+        // the last row of a def symbol wins: the cycle is there / is gone
+        ("dup_makes_cycle", vec![RowSpec::plain("a", vec![]), RowSpec::plain("b", vec![sy("a")]), RowSpec::plain("a", vec![sy("b")])]),
+        ("dup_breaks_cycle", vec![RowSpec::plain("a", vec![sy("b")]), RowSpec::plain("b", vec![sy("a")]), RowSpec::plain("a", vec![sy("m")]), RowSpec::plain("m", vec![])]),
+        // a cycle through a conjunct def and one of its parts, and through `choice`
+        ("conjunct_cycle", vec![RowSpec::plain("a-b", vec![sy("a")]), RowSpec::plain("a", vec![sy("a-b")]), RowSpec::plain("b", vec![])]),
+        ("choice_cycle", vec![RowSpec::plain("choice", vec![sy("x")]), RowSpec::plain("x", vec![sy("choice")]), RowSpec::plain("y", vec![sy("x"), sy("choice")])]),
+        // many diamonds, no cycle: 2^40 paths from top to bottom (a traversal that re-expands a def once per
+        // path does not come back from this one either)
+        (
+            "ladder40",
+            (0..80)
+                .map(|i| {
+                    let lvl = i / 2;
+                    RowSpec::plain(
+                        &format!("l{}{}", lvl, if i % 2 == 0 { "a" } else { "b" }),
+                        if lvl == 0 { vec![] } else { vec![Some(format!("l{}a", lvl - 1)), Some(format!("l{}b", lvl - 1))] },
+                    )
+                })
+                .collect(),
+        ),
+    ];
+    for (name, rows) in &cyclic {
+        emit_graph_case(ctx, &mut rng, &format!("cyc:{name}"), rows);
+    }
+    let nc = ctx.n(120, 2000);
+    for i in 0..nc {
+        let size = if i % 10 == 9 { 60 } else { 22 };
+        let g = gen_cyclic_graph(&mut rng, size, i % 4);
+        emit_graph_case(ctx, &mut rng, &format!("cycrand:{i}"), &g.rows);
     }
     let n = ctx.n(220, 3000);
     for i in 0..n {
@@ -963,6 +1145,27 @@ pub fn exec(label: &str, input: &str, out: &mut CaseOut) {
             let o = Oracle::new(&rows);
             out.nontrivial = o.is.values().any(|v| !v.is_empty());
             out.stat(&format!("defs_{}", match o.is.len() { 0 => "0", 1..=5 => "1-5", 6..=15 => "6-15", 16..=30 => "16-30", _ => "31+" }));
+            let cyc = o.on_cycle();
+            if !cyc.is_empty() {
+                out.stat("cyclic_graph");
+                out.stat(&format!("cycle_members_{}", match cyc.len() { 1 => "1", 2 => "2", 3..=5 => "3-5", 6..=15 => "6-15", _ => "16+" }));
+                if o.is.iter().any(|(k, v)| v.contains(k)) {
+                    out.stat("cyclic_self_loop");
+                }
+                if o.is.keys().any(|k| !cyc.contains(k) && o.all_sup(k).iter().any(|x| cyc.contains(x))) {
+                    out.stat("cyclic_with_tail");
+                }
+            } else {
+                out.stat("acyclic_graph");
+            }
+            // the oracle against itself: DFS closure = Floyd-Warshall closure (also on cyclic graphs)
+            if o.is.len() <= 90 {
+                for (k, anc) in o.warshall() {
+                    if anc != o.all_sup(&k) {
+                        out.fail("harness", format!("the two closure oracles disagree on {k:?}: {anc:?} / {:?}", o.all_sup(&k)));
+                    }
+                }
+            }
             let ns = build_ns(&rows);
             // a conjunct def with a part that has no def: the positive half of the reflection rule is left open
             let parts_defined = o.is.keys().filter(|c| c.contains('-')).all(|c| c.split('-').all(|p| o.defined(p)));
